@@ -4,7 +4,9 @@ The REAL parse and emit run symbolically with preserve_code_transform on; a prob
 CodeTransform it is given.  Byte lengths are symbolic: flen(f, n) is the encoded length of function f after n
 instructions (uninterpreted, strictly increasing), the module prefix is a symbol, LEB128 lengths are the exact function.
 The recorded map must equal the layout that wasm-encoder produces for the recorded code section."""
+import os
 import re
+import sys
 
 import z3
 
@@ -89,10 +91,11 @@ def flen_term(I, k, n):
 
 def equal_terms(report, pcs, a, b, timeout_ms):
     """None if a == b for all values (linear-form identity, else solver with the exact LEB128 definition); else a model"""
+    a, b = z3.simplify(a), z3.simplify(b)
     fa, fb = lin.flatten(a), lin.flatten(b)
     if fa is not None and fb is not None:
         d = fa.add(fb, -1)
-        if d.c == 0 and not d.terms:
+        if d.c % (1 << 64) == 0 and not any(co % (1 << 64) for co, _ in d.terms.values()):
             return None
     s = z3.Then('simplify', 'solve-eqs', 'ackermannize_bv', 'bit-blast', 'sat').solver()
     s.set('timeout', timeout_ms)
@@ -102,7 +105,11 @@ def equal_terms(report, pcs, a, b, timeout_ms):
     report.queries += 1
     r = s.check()
     if r == z3.unknown:
-        raise Inconclusive('solver timeout on a layout equality')
+        so = second_opinion(s)
+        if so == 'unsat':
+            report.extra['decided_by_cvc5_after_z3_timeout'] = report.extra.get('decided_by_cvc5_after_z3_timeout', 0) + 1
+            return None
+        raise Inconclusive('solver timeout on a layout equality (z3 unknown, cvc5 %s)' % so)
     common.cross_check(s, r)
     return s.model() if r == z3.sat else None
 
@@ -206,6 +213,43 @@ def many_functions(nlocal, nimp):
     return sp
 
 
+def within_by_intervals(I, got, lo, hi):
+    """lo <= got <= hi decided by interval arithmetic on the linear forms (bounded atoms, no wrap-around): sound, no solver"""
+    got, lo, hi = z3.simplify(got), z3.simplify(lo), z3.simplify(hi)
+    fg, fl, fh = lin.flatten(got), lin.flatten(lo), lin.flatten(hi)
+    if fg is None or fl is None or fh is None:
+        if os.environ.get('VERIF_SLOWQ'):
+            sys.stderr.write('INTERVALS: not linear: got=%s lo=%s hi=%s :: %s\n' % (fg is None, fl is None, fh is None, str(z3.simplify(got))[:600]))
+        return False
+    b = I.bounds
+    for f in (fg, fl, fh):
+        l, h = lin.form_bounds(f, b)
+        if l < 0 or h >= (1 << 64):
+            if os.environ.get('VERIF_SLOWQ'):
+                sys.stderr.write('INTERVALS: range [%d, %d] c=%d terms=%s\n' % (l, h, f.c, [(co, str(a)[:60]) for co, a in f.terms.values()][:12]))
+            return False
+    d1, d2 = fg.add(fl, -1), fh.add(fg, -1)
+    ok = lin.form_bounds(d1, b)[0] >= 0 and lin.form_bounds(d2, b)[0] >= 0
+    if not ok and os.environ.get('VERIF_SLOWQ'):
+        for d in (d1, d2):
+            sys.stderr.write('INTERVALS: diff bounds %r c=%d terms=%s\n' % (lin.form_bounds(d, b), d.c, [(co, str(a)[:70]) for co, a in d.terms.values()][:10]))
+    return ok
+
+
+def second_opinion(solver, cap_s=180):
+    """z3 gave up on an obligation-level query: ask cvc5 (same SMT-LIB2 export as the cross-check); 'sat' / 'unsat' / None"""
+    import subprocess
+    try:
+        txt = '(set-logic ALL)\n' + common._portable(solver.to_smt2())
+        p = subprocess.run(['cvc5', '--lang', 'smt2', '--tlimit=%d' % (cap_s * 1000)], input=txt, capture_output=True, text=True, timeout=cap_s + 20)
+        out = (p.stdout or '').strip().splitlines()
+        if out and out[0].strip() in ('sat', 'unsat') and not any('(error' in l for l in out):
+            return out[0].strip()
+    except Exception:      # noqa
+        pass
+    return None
+
+
 def find_model(report, pcs, cond, timeout_ms):
     """a model of pcs /\\ cond under the exact LEB128 definition, or None"""
     s = z3.Then('simplify', 'solve-eqs', 'ackermannize_bv', 'bit-blast', 'sat').solver()
@@ -214,9 +258,17 @@ def find_model(report, pcs, cond, timeout_ms):
     s.add(*terms)
     s.add(*leb_definitions(terms))
     report.queries += 1
+    import time as _t
+    _t0 = _t.time()
     r = s.check()
+    if os.environ.get('VERIF_SLOWQ') and _t.time() - _t0 > float(os.environ['VERIF_SLOWQ']):
+        sys.stderr.write('SLOW find_model %.1fs %s: %s\n' % (_t.time() - _t0, r, str(cond)[:300]))
     if r == z3.unknown:
-        raise Inconclusive('solver timeout on a layout inequality')
+        so = second_opinion(s)
+        if so == 'unsat':
+            report.extra['decided_by_cvc5_after_z3_timeout'] = report.extra.get('decided_by_cvc5_after_z3_timeout', 0) + 1
+            return None
+        raise Inconclusive('solver timeout on a layout inequality (z3 unknown, cvc5 %s)' % so)
     common.cross_check(s, r)
     return s.model() if r == z3.sat else None
 
@@ -443,7 +495,7 @@ def run(tier, seed, only=None):
     table = witness.load_table()
 
     from obligations import gen
-    gl = gen.generated(tier, seed, n_quick=2, n_thorough=18)
+    gl = gen.generated(tier, seed, n_quick=4, n_thorough=18, prefer_small=True)
     items = [('three-functions', spec_for(3), timeout_ms, table, None), ('one-function', spec_for(1), timeout_ms, table, None), ('edited/insert-at-front', spec_for(2), timeout_ms, table, edit_insert)]
     if tier != 'quick':
         items.append(('four-functions', spec_for(4), timeout_ms, table, None))
